@@ -139,6 +139,11 @@ struct FnEmitter {
     J.object([&] {
       J.attribute("k", s->getStmtClassName());
       loc(J, s->getBeginLoc());
+      if (s->getBeginLoc().isMacroID() && s->getEndLoc().isMacroID() &&
+          SM.getExpansionLoc(s->getBeginLoc()) == SM.getExpansionLoc(s->getEndLoc()) &&
+          Lexer::isAtStartOfMacroExpansion(s->getBeginLoc(), SM, Ctx.getLangOpts()) &&
+          Lexer::isAtEndOfMacroExpansion(s->getEndLoc(), SM, Ctx.getLangOpts()))
+        J.attribute("mfull", true);
       J.attributeArray("c", [&] {
         for (const Stmt *c : s->children()) J.value(c ? (int64_t)id(c) : (int64_t)-1);
       });
